@@ -230,6 +230,9 @@ sb_error_t sb_trajectory_init_from_builder(
     buf = SB_BUFFER(builder->buffer);
     buf[0] = header;
 
+    /* the new buffer starts at the origin, and so does the builder */
+    memset(&builder->last_position, 0, sizeof(builder->last_position));
+
     return SB_SUCCESS;
 }
 
